@@ -28,11 +28,14 @@ class Deriv:
     bindings.  Bindings are identified by their HIR id, so equally named bindings of different arms
     are kept apart."""
 
-    def __init__(self, tree):
+    def __init__(self, tree, tuples=False):
         self.src = {}     # lid -> [init exprs]
         self.by_name = {}
+        self.tup_src = {}  # lid -> [(Tup node, component index)] (tuples=True only)
         for n in walk(tree["body"]):
             if n["k"] in ("LetStmt", "Let") and n.get("init") is not None:
+                if tuples and self._tuple_let(n):
+                    continue
                 for b in self.binders(n["pat"]):
                     self.src.setdefault(b, []).append(n["init"])
             if n["k"] == "Match":
@@ -42,6 +45,44 @@ class Deriv:
 
     def binders(self, pat):
         return [x.get("lid") for x in walk(pat) if x["k"] == "P.Binding"]
+
+    def _tuple_let(self, n):
+        """`let (a, b) = match s { P => (x, y), Q => continue, .. }` (benign b93): a derives from the first component
+        of each tuple the initialiser may evaluate to, b from the second - not both from everything"""
+        pat = n["pat"]
+        if pat["k"] != "P.Tuple" or pat.get("rest"):
+            return False
+        leaves = value_leaves(n["init"])
+        if not leaves or any(l["k"] != "Tup" or len(l["es"]) != len(pat["pats"]) for l in leaves):
+            return False
+        for i, p in enumerate(pat["pats"]):
+            for b in self.binders(p):
+                for l in leaves:
+                    self.src.setdefault(b, []).append(l["es"][i])
+                    self.tup_src.setdefault(b, []).append((l, i))
+        return True
+
+    def closure_nodes(self, expr, depth=0, seen=None):
+        """the nodes of expr and of the initialisers of every local it (transitively) mentions"""
+        seen = seen if seen is not None else set()
+        for x in walk(expr):
+            yield x
+            if x["k"] == "Path" and x.get("res") == "local" and x.get("lid") in self.src and x.get("lid") not in seen and depth < 8:
+                seen.add(x["lid"])
+                for e in self.src[x["lid"]]:
+                    for y in self.closure_nodes(e, depth + 1, seen):
+                        yield y
+
+    def param_roots(self, tree, expr):
+        """indices of the parameters of `tree` that expr derives from (by binding id, through let / match-arm bindings)"""
+        plids = [[b.get("lid") for b in walk(p) if b["k"] == "P.Binding"] for p in tree.get("params", [])]
+        out = set()
+        if expr is None:
+            return out
+        for x in self.closure_nodes(expr):
+            if x["k"] == "Path" and x.get("res") == "local":
+                out |= {i for i, ps in enumerate(plids) if x.get("lid") in ps}
+        return out
 
     def tag_fields(self, tree, adt_suffix, fields):
         """bindings introduced under field `f` of a struct pattern over `adt_suffix` get the tag f (syntax-field
